@@ -75,6 +75,12 @@ def cat_cases(rnd, per_fn):
             room = dmax - dl
             ln = rnd.choice([0, 1, max(0, room - 34), max(0, room - 2), max(0, room - 1), room, rnd.randint(0, max(1, room))])
             slen = rnd.choice([1, max(1, ln - 1), ln if ln else 1, ln + 1, max(1, room - 1), room if room else 1]) if hasn else 0
+            if hasn and rnd.random() < 0.3:
+                # the count runs out before the source does, with a lot of slack left behind the result
+                dmax = rnd.choice([48, 64, 72, 80])
+                dl = rnd.choice([0, 1, 3])
+                ln = rnd.choice([3, 8, 11])
+                slen = rnd.randint(1, ln)
             gap = rnd.choice([0, 1, 4])
             if rnd.random() < 0.5:       # source behind dest
                 d = 1 + rnd.choice([0, 2])
